@@ -8,6 +8,9 @@ C10.b  [effect per path] linkTask: empty plan -> {first, last := index}; otherwi
        successor / last patched, own link reset, then the slot is released.
 C10.c  emplace increments and remove decrements the count exactly once on the paths that take / release a slot, never on the
        full path; TaskListT::clear resets all four cursors.
+C10.h  [type] the configured task capacity survives every order of the configuration setters
+C10.i  [type] the task pool has the configured capacity; per-task side arrays are at least as long
+C10.j  [order] clearing a plan walks the whole list, reading each successor before the task is removed, and resets the bounds (shares C09.a)
 C10.d  [order] all three iterator types advance with `_curr := _next; _next := next()`; remove() does not touch the cached
        successor; the constructor caches the successor of the first task.
 C10.e  [sib] the three iterator types agree.
